@@ -374,8 +374,72 @@ func (g *jgen) zigzag(np int, poly bool) *jnode {
 	return jobj().set("type", jstr("LineString")).set("coordinates", a)
 }
 
+// shapes with more than 32 segments (so a quadtree node splits) whose segment boxes start exactly on
+// the split lines of the tree at several levels: staircase, subdivided square, saw-tooth, subdivided L
+func (g *jgen) bigShape() *jnode {
+	ox, oy := g.rng.Int63n(17)-8, g.rng.Int63n(17)-8
+	var pts []ipt
+	switch g.rng.Intn(4) {
+	case 0:
+		k := []int64{32, 64, 40}[g.rng.Intn(3)]
+		for i := int64(0); i < k; i++ {
+			pts = append(pts, ipt{i, i}, ipt{i + 1, i})
+		}
+		pts = append(pts, ipt{k, k}, ipt{0, k}, ipt{0, 0})
+	case 1:
+		m := []int64{16, 32, 20}[g.rng.Intn(3)]
+		for i := int64(0); i < m; i++ {
+			pts = append(pts, ipt{i, 0})
+		}
+		for i := int64(0); i < m; i++ {
+			pts = append(pts, ipt{m, i})
+		}
+		for i := m; i > 0; i-- {
+			pts = append(pts, ipt{i, m})
+		}
+		for i := m; i > 0; i-- {
+			pts = append(pts, ipt{0, i})
+		}
+		pts = append(pts, ipt{0, 0})
+	case 2:
+		w, h := []int64{64, 128, 80}[g.rng.Intn(3)], []int64{64, 32, 16}[g.rng.Intn(3)]
+		pts = append(pts, ipt{0, 0}, ipt{w, 0}, ipt{w, h})
+		for x := w - 1; x > 0; x-- {
+			if (w-x)%2 == 1 {
+				pts = append(pts, ipt{x, h / 2})
+			} else {
+				pts = append(pts, ipt{x, h})
+			}
+		}
+		pts = append(pts, ipt{0, h}, ipt{0, 0})
+	default:
+		m := []int64{16, 8, 32}[g.rng.Intn(3)]
+		corners := []ipt{{0, 0}, {2 * m, 0}, {2 * m, m}, {m, m}, {m, 2 * m}, {0, 2 * m}, {0, 0}}
+		for i := 0; i+1 < len(corners); i++ {
+			a, b := corners[i], corners[i+1]
+			dx, dy := int64(sgn(b.x-a.x)), int64(sgn(b.y-a.y))
+			for q := a; q != b; q = (ipt{q.x + dx, q.y + dy}) {
+				pts = append(pts, q)
+			}
+		}
+		pts = append(pts, ipt{0, 0})
+	}
+	a := jarr()
+	for _, q := range pts {
+		a.arr = append(a.arr, g.position(2, q.x+ox, q.y+oy))
+	}
+	if g.rng.Intn(3) == 0 {
+		a.arr = a.arr[:len(a.arr)-1]
+		return jobj().set("type", jstr("LineString")).set("coordinates", a)
+	}
+	return jobj().set("type", jstr("Polygon")).set("coordinates", jarr(a))
+}
+
 func (g *jgen) document(mixed bool) *jnode {
 	var o *jnode
+	if g.rng.Intn(60) == 0 {
+		return g.bigShape()
+	}
 	if g.rng.Intn(150) == 0 {
 		return g.zigzag([]int{256, 257, 258, 65}[g.rng.Intn(4)], g.rng.Intn(2) == 0)
 	}
